@@ -306,9 +306,17 @@ func faultFidelityPass(tier string, seed uint64, cov map[string]any) (int, []str
 
 // materialise writes the world's files, links and directories into dir.
 func materialise(w *simos.World, dir string) error {
+	first := map[*simos.Node]string{}
 	for _, name := range w.Names() {
 		nd := w.Get(name)
 		p := filepath.Join(dir, name)
+		if q, ok := first[nd]; ok {
+			if err := os.Link(q, p); err != nil {
+				return err
+			}
+			continue
+		}
+		first[nd] = p
 		switch {
 		case nd.Mode&os.ModeSymlink != 0:
 			if err := os.Symlink(nd.Target, p); err != nil {
